@@ -7,5 +7,840 @@ import DimModel.Props.C03
 import DimModel.Props.C01
 namespace DimModel
 open Lib OnDisk
+universe u v
+
+/-! ### `allIdx` enumerates the indices of a shape in `ravel` order -/
+
+theorem flatMap_map_length {β γ δ : Type} (L : List β) (T : List γ) (f : β → γ → δ) :
+    (L.flatMap fun l => T.map (f l)).length = L.length * T.length := by
+  induction L with
+  | nil => simp
+  | cons l L ih =>
+    simp only [List.flatMap_cons, List.length_append, List.length_map, List.length_cons, ih]
+    rw [Nat.succ_mul, Nat.add_comm]
+
+theorem allIdx_length (s : List Nat) : (allIdx s).length = prod s := by
+  induction s with
+  | nil => rfl
+  | cons n s ih =>
+    simp only [allIdx, prod_cons]
+    rw [flatMap_map_length, ih, List.length_range]
+
+theorem flatMap_block_getElem? {β γ δ : Type} (L : List β) (T : List γ) (f : β → γ → δ) (q r : Nat)
+    (x : β) (y : γ) (hq : L[q]? = some x) (hr : T[r]? = some y) :
+    (L.flatMap fun l => T.map (f l))[q * T.length + r]? = some (f x y) := by
+  have hrl : r < T.length := by
+    rcases Nat.lt_or_ge r T.length with h | h
+    · exact h
+    · rw [List.getElem?_eq_none h] at hr; cases hr
+  induction L generalizing q with
+  | nil => simp at hq
+  | cons l L ih =>
+    cases q with
+    | zero =>
+      simp only [List.getElem?_cons_zero, Option.some.injEq] at hq
+      subst hq
+      simp only [List.flatMap_cons, Nat.zero_mul, Nat.zero_add]
+      rw [List.getElem?_append_left (by simpa using hrl)]
+      simp [List.getElem?_map, hr]
+    | succ q =>
+      simp only [List.getElem?_cons_succ] at hq
+      simp only [List.flatMap_cons]
+      rw [List.getElem?_append_right (by
+        simp only [List.length_map]; rw [Nat.succ_mul]; omega)]
+      have he : (q + 1) * T.length + r - (List.map (f l) T).length = q * T.length + r := by
+        simp only [List.length_map]; rw [Nat.succ_mul]; omega
+      rw [he, ih q hq]
+
+theorem allIdx_getElem? (s j : List Nat) (h : InRange s j) : (allIdx s)[ravel s j]? = some j := by
+  induction s generalizing j with
+  | nil =>
+    cases j with
+    | nil => rfl
+    | cons _ _ => simp [InRange] at h
+  | cons n s ih =>
+    cases j with
+    | nil => simp [InRange] at h
+    | cons i is =>
+      simp only [InRange] at h
+      simp only [allIdx, ravel]
+      rw [← allIdx_length s]
+      exact flatMap_block_getElem? (List.range n) (allIdx s) (fun i x => i :: x) i (ravel s is) i is
+        (by simp [h.1]) (ih is h.2)
+
+theorem mem_allIdx (s c : List Nat) (h : c ∈ allIdx s) : InRange s c := by
+  induction s generalizing c with
+  | nil =>
+    simp only [allIdx, List.mem_singleton] at h
+    subst h; trivial
+  | cons n s ih =>
+    simp only [allIdx, List.mem_flatMap, List.mem_range, List.mem_map] at h
+    obtain ⟨i, hi, c', hc', rfl⟩ := h
+    exact ⟨hi, ih c' hc'⟩
+
+theorem allIdx_map_getD {α : Type} (s j : List Nat) (f : List Nat → α) (d : α) (h : InRange s j) :
+    ((allIdx s).map f).getD (ravel s j) d = f j := by
+  rw [List.getD_eq_getElem?_getD, List.getElem?_map, allIdx_getElem? s j h]
+  rfl
+
+theorem inRange_length (s j : List Nat) (h : InRange s j) : j.length = s.length := by
+  induction s generalizing j with
+  | nil =>
+    cases j with
+    | nil => rfl
+    | cons _ _ => simp [InRange] at h
+  | cons n s ih =>
+    cases j with
+    | nil => simp [InRange] at h
+    | cons i is =>
+      simp only [InRange] at h
+      simp [ih is h.2]
+
+theorem ravel_inj (s i j : List Nat) (hi : InRange s i) (hj : InRange s j) (h : ravel s i = ravel s j) :
+    i = j := by
+  rw [← unravel_ravel s i hi, ← unravel_ravel s j hj, h]
+
+/-! ### sequential writes: the last writer wins -/
+
+theorem find?_congr_mem {β : Type} (l : List β) (p q : β → Bool) (h : ∀ x ∈ l, p x = q x) :
+    l.find? p = l.find? q := by
+  induction l with
+  | nil => rfl
+  | cons x l ih =>
+    simp only [List.find?_cons, h x (by simp)]
+    rw [ih (fun y hy => h y (by simp [hy]))]
+
+theorem foldl_set_length {α : Type u} {γ : Type v} (cs : List γ) (k : γ → Nat) (v : γ → α) (cells : List α) :
+    (cs.foldl (fun acc c => acc.set (k c) (v c)) cells).length = cells.length := by
+  induction cs generalizing cells with
+  | nil => rfl
+  | cons c cs ih => simp only [List.foldl_cons, ih, List.length_set]
+
+theorem foldl_set_getD {α γ : Type} (cs : List γ) (k : γ → Nat) (v : γ → α) (cells : List α) (d : α)
+    (m : Nat) (hm : m < cells.length) :
+    (cs.foldl (fun acc c => acc.set (k c) (v c)) cells).getD m d =
+      match cs.reverse.find? (fun c => k c == m) with
+      | some c => v c
+      | none => cells.getD m d := by
+  induction cs generalizing cells with
+  | nil => rfl
+  | cons c cs ih =>
+    simp only [List.foldl_cons, List.reverse_cons, List.find?_append]
+    rw [ih (cells.set (k c) (v c)) (by simpa using hm)]
+    cases hf : cs.reverse.find? (fun c => k c == m) with
+    | some c' => rfl
+    | none =>
+      simp only [Option.none_or, List.find?_cons, List.find?_nil]
+      by_cases hk : k c = m
+      · subst hk
+        simp [List.getD_eq_getElem?_getD, hm]
+      · have : (k c == m) = false := by simpa using hk
+        simp only [this]
+        simp [List.getD_eq_getElem?_getD, hk]
+
+/-- every resolved position is inside its dimension -/
+def PixOk : List Nat → List PosIx → Prop
+  | [], [] => True
+  | n :: s, .scalar p :: ix => p < n ∧ PixOk s ix
+  | n :: s, .list ps :: ix => (∀ p ∈ ps, p < n) ∧ PixOk s ix
+  | _, _ => False
+
+theorem expandIx_inRange (shape : List Nat) (pix : List PosIx) (c : List Nat) (hok : PixOk shape pix)
+    (hc : InRange (outerShape pix) c) : InRange shape (expandIx pix c) := by
+  induction pix generalizing shape c with
+  | nil =>
+    cases shape with
+    | nil => simp [expandIx, InRange]
+    | cons _ _ => simp [PixOk] at hok
+  | cons p pix ih =>
+    cases shape with
+    | nil => cases p <;> simp [PixOk] at hok
+    | cons n s =>
+      cases p with
+      | scalar p =>
+        simp only [PixOk] at hok
+        simp only [outerShape] at hc
+        simp only [expandIx, InRange]
+        exact ⟨hok.1, ih s c hok.2 hc⟩
+      | list ps =>
+        simp only [PixOk] at hok
+        simp only [outerShape] at hc
+        cases c with
+        | nil => simp [InRange] at hc
+        | cons k c =>
+          simp only [InRange] at hc
+          simp only [expandIx, InRange]
+          refine ⟨hok.1 _ ?_, ih s c hok.2 hc.2⟩
+          rw [List.getD_eq_getElem?_getD, List.getElem?_eq_getElem hc.1]
+          simp
+
+theorem pixOk_length (shape : List Nat) (pix : List PosIx) (hok : PixOk shape pix) :
+    pix.length = shape.length := by
+  induction pix generalizing shape with
+  | nil =>
+    cases shape with
+    | nil => rfl
+    | cons _ _ => simp [PixOk] at hok
+  | cons p pix ih =>
+    cases shape with
+    | nil => cases p <;> simp [PixOk] at hok
+    | cons n s =>
+      cases p <;> simp only [PixOk] at hok <;> simp [ih s hok.2]
+
+theorem lastSel_snoc_step (ps : List Nat) (x k : Nat)
+    (ih : (List.range ps.length).reverse.find? (fun i => ps.getD i 0 == k) = lastSel ps k) :
+    (List.range (ps ++ [x]).length).reverse.find? (fun i => (ps ++ [x]).getD i 0 == k)
+      = lastSel (ps ++ [x]) k := by
+  · unfold lastSel at ih ⊢
+    simp only [List.length_append, List.length_cons, List.length_nil, Nat.zero_add, List.range_succ,
+      List.reverse_append, List.reverse_cons, List.reverse_nil, List.nil_append, List.singleton_append,
+      List.find?_cons, List.findIdx_cons]
+    have hx : (ps ++ [x]).getD ps.length 0 = x := by simp [List.getD_eq_getElem?_getD]
+    rw [hx]
+    by_cases hxk : x = k
+    · subst hxk; simp
+    · have : (x == k) = false := by simpa using hxk
+      simp only [this, cond_false]
+      have hcongr : (List.range ps.length).reverse.find? (fun i => (ps ++ [x]).getD i 0 == k)
+          = (List.range ps.length).reverse.find? (fun i => ps.getD i 0 == k) := by
+        apply find?_congr_mem
+        intro i hi
+        simp only [List.mem_reverse, List.mem_range] at hi
+        simp [List.getD_eq_getElem?_getD, List.getElem?_append_left hi]
+      rw [hcongr, ih]
+      by_cases hlt : List.findIdx (fun x => x == k) ps.reverse < ps.length
+      · simp only [hlt, if_true]
+        have : List.findIdx (fun x => x == k) ps.reverse + 1 < ps.length + 1 := by omega
+        simp only [this, if_true]
+        congr 1
+        omega
+      · simp only [hlt, if_false]
+        have : ¬ (List.findIdx (fun x => x == k) ps.reverse + 1 < ps.length + 1) := by omega
+        simp only [this, if_false]
+
+/-- the last occurrence of `k` in `ps`, found by scanning the positions backwards -/
+theorem lastSel_eq_find (ps : List Nat) (k : Nat) :
+    (List.range ps.length).reverse.find? (fun i => ps.getD i 0 == k) = lastSel ps k := by
+  have aux : ∀ (qs ps : List Nat), ps = qs.reverse →
+      (List.range ps.length).reverse.find? (fun i => ps.getD i 0 == k) = lastSel ps k := by
+    intro qs
+    induction qs with
+    | nil => intro ps h; subst h; rfl
+    | cons x qs ih =>
+      intro ps h
+      rw [List.reverse_cons] at h
+      subst h
+      exact lastSel_snoc_step qs.reverse x k (ih _ rfl)
+  exact aux ps.reverse ps (List.reverse_reverse ps).symm
+
+theorem findSome?_ite_some {β γ : Type} (L : List β) (q : β → Bool) (g : β → γ) :
+    L.findSome? (fun i => if q i then some (g i) else none) = (L.find? q).map g := by
+  induction L with
+  | nil => rfl
+  | cons x L ih =>
+    simp only [List.findSome?_cons, List.find?_cons]
+    cases hq : q x <;> simp [ih]
+
+theorem findSome?_none {β γ : Type} (L : List β) : L.findSome? (fun _ => (none : Option γ)) = none := by
+  induction L with
+  | nil => rfl
+  | cons x L ih => simp only [List.findSome?_cons, ih]
+
+theorem find?_false {β : Type} (L : List β) : L.find? (fun _ => false) = none := by
+  induction L with
+  | nil => rfl
+  | cons x L ih => simp only [List.find?_cons, ih]
+
+/-- the last coordinate (in row-major order of the selection) that addresses cell `j` is the
+writer `selCoord` names -/
+theorem find_last_writer (pix : List PosIx) (j : List Nat) (hl : j.length = pix.length) :
+    (allIdx (outerShape pix)).reverse.find? (fun c => expandIx pix c == j) = selCoord pix j := by
+  induction pix generalizing j with
+  | nil =>
+    cases j with
+    | nil => simp [allIdx, outerShape, expandIx, selCoord]
+    | cons _ _ => simp at hl
+  | cons p pix ih =>
+    cases j with
+    | nil => simp at hl
+    | cons k j =>
+      have hl' : j.length = pix.length := by simpa using hl
+      cases p with
+      | scalar p =>
+        simp only [outerShape, selCoord]
+        by_cases hk : k = p
+        · subst hk
+          simp only [beq_self_eq_true, if_true]
+          rw [← ih j hl']
+          apply find?_congr_mem
+          intro c _
+          simp [expandIx]
+        · have h1 : (k == p) = false := by simpa using hk
+          simp only [h1, Bool.false_eq_true, if_false]
+          have : (fun c => expandIx (PosIx.scalar p :: pix) c == k :: j) = fun _ => false := by
+            funext c
+            have : ¬ p = k := fun h => hk h.symm
+            simp [expandIx, this]
+          rw [this, find?_false]
+      | list ps =>
+        simp only [outerShape, allIdx, selCoord]
+        rw [List.reverse_flatMap, List.find?_flatMap]
+        have hinner : (fun i => ((List.reverse ∘ fun i => (allIdx (outerShape pix)).map (fun x => i :: x)) i).find?
+              (fun c => expandIx (PosIx.list ps :: pix) c == k :: j))
+            = fun i => if ps.getD i 0 == k then (selCoord pix j).map (fun x => i :: x) else none := by
+          funext i
+          simp only [Function.comp, ← List.map_reverse, List.find?_map]
+          by_cases hq : ps.getD i 0 = k
+          · have h1 : (ps.getD i 0 == k) = true := by simpa using hq
+            simp only [h1, if_true]
+            rw [← ih j hl']
+            congr 1
+            apply find?_congr_mem
+            intro c _
+            have hq' : ps[i]?.getD 0 = k := by simpa [List.getD_eq_getElem?_getD] using hq
+            simp [expandIx, hq']
+          · have h1 : (ps.getD i 0 == k) = false := by simpa using hq
+            simp only [h1, Bool.false_eq_true, if_false]
+            have : ((fun c => expandIx (PosIx.list ps :: pix) c == k :: j) ∘ fun x => i :: x)
+                = fun _ => false := by
+              funext c
+              have hq' : ¬ ps[i]?.getD 0 = k := by simpa [List.getD_eq_getElem?_getD] using hq
+              simp [expandIx, hq']
+            rw [this, find?_false]
+            rfl
+        rw [hinner]
+        cases hs : selCoord pix j with
+        | none =>
+          simp only [Option.map_none, ite_self]
+          rw [findSome?_none]
+          cases lastSel ps k <;> rfl
+        | some cs =>
+          simp only [Option.map_some]
+          rw [findSome?_ite_some, lastSel_eq_find]
+          cases lastSel ps k <;> rfl
+
+theorem ncPut_length_aux {α : Type u} (shape : List Nat) (cells : List α) (pix : List PosIx) (vget : List Nat → α) :
+    (ncPut shape cells pix vget).length = cells.length := by
+  unfold ncPut
+  exact foldl_set_length _ _ _ _
+
+theorem ncPut_getD {α : Type} (d : α) (shape : List Nat) (cells : List α) (pix : List PosIx) (vget : List Nat → α)
+    (hlen : cells.length = prod shape) (hok : PixOk shape pix) (j : List Nat) (hj : InRange shape j) :
+    (ncPut shape cells pix vget).getD (ravel shape j) d
+      = (putVals { shape := shape, get := fun i => cells.getD (ravel shape i) d } pix vget).get j := by
+  unfold ncPut
+  rw [foldl_set_getD _ _ _ _ _ _ (by rw [hlen]; exact ravel_lt shape j hj)]
+  have hcongr : (allIdx (outerShape pix)).reverse.find? (fun c => ravel shape (expandIx pix c) == ravel shape j)
+      = (allIdx (outerShape pix)).reverse.find? (fun c => expandIx pix c == j) := by
+    apply find?_congr_mem
+    intro c hc
+    have hc' : InRange shape (expandIx pix c) :=
+      expandIx_inRange shape pix c hok (mem_allIdx _ c (List.mem_reverse.mp hc))
+    by_cases he : expandIx pix c = j
+    · simp [he]
+    · have : ravel shape (expandIx pix c) ≠ ravel shape j := fun h => he (ravel_inj shape _ _ hc' hj h)
+      rw [beq_eq_false_iff_ne.mpr this, beq_eq_false_iff_ne.mpr he]
+  rw [hcongr, find_last_writer pix j (by rw [inRange_length shape j hj, pixOk_length shape pix hok])]
+  simp only [putVals]
+  cases selCoord pix j <;> rfl
+
+/-! ### resolved positions are inside their dimension -/
+
+theorem sliceIndices_bounds (s e st : Option Int) (n : Nat) (a b c : Int)
+    (h : sliceIndices s e st n = .ok (a, b, c)) :
+    (c > 0 → 0 ≤ a ∧ b ≤ n) ∧ (c < 0 → a < n ∧ -1 ≤ b) := by
+  unfold sliceIndices at h
+  simp only [] at h
+  split at h
+  · cases h
+  · rename_i h0
+    simp only [Except.ok.injEq, Prod.mk.injEq] at h
+    obtain ⟨ha, hb, hc⟩ := h
+    subst hc
+    refine ⟨?_, ?_⟩
+    · intro hpos
+      have hneg : ¬ (st.getD 1 < 0) := by omega
+      subst ha hb
+      constructor
+      · cases s with
+        | none => simp only [hneg]; simp
+        | some v => simp only [hneg]; grind
+      · cases e with
+        | none => simp only [hneg]; simp
+        | some v => simp only [hneg]; grind
+    · intro hneg
+      subst ha hb
+      constructor
+      · cases s with
+        | none => simp only [hneg]; simp; omega
+        | some v => simp only [hneg]; grind
+      · cases e with
+        | none => simp only [hneg]; simp
+        | some v => simp only [hneg]; grind
+
+theorem rangeList_lt (a b c : Int) (n : Nat) (hpos : c > 0 → 0 ≤ a ∧ b ≤ n)
+    (hneg : c < 0 → a < n ∧ -1 ≤ b) : ∀ p ∈ rangeList a b c, p < n := by
+  intro p hp
+  unfold rangeList at hp
+  simp only [List.mem_map, List.mem_range] at hp
+  obtain ⟨k, hk, rfl⟩ := hp
+  unfold rangeLen at hk
+  by_cases hc : c > 0
+  · simp only [hc, if_true] at hk
+    obtain ⟨ha, hb⟩ := hpos hc
+    by_cases hab : a < b
+    · simp only [hab, if_true] at hk
+      have h1 : (k : Int) ≤ (b - a - 1) / c := by omega
+      have h2 : (b - a - 1) / c * c ≤ b - a - 1 := Int.ediv_mul_le _ (by omega)
+      have h3 : (k : Int) * c ≤ (b - a - 1) / c * c := Int.mul_le_mul_of_nonneg_right h1 (by omega)
+      have h4 : 0 ≤ (k : Int) * c := Int.mul_nonneg (by omega) (by omega)
+      omega
+    · simp only [hab, if_false] at hk
+      omega
+  · simp only [hc, if_false] at hk
+    by_cases hc' : c < 0
+    · simp only [hc', if_true] at hk
+      obtain ⟨ha, hb⟩ := hneg hc'
+      by_cases hab : b < a
+      · have h4 : (k : Int) * c ≤ 0 := Int.mul_nonpos_of_nonneg_of_nonpos (by omega) (by omega)
+        omega
+      · simp only [hab, if_false] at hk
+        omega
+    · simp only [hc', if_false] at hk
+      omega
+
+theorem slicePositions_lt (s e st : Option Int) (n : Nat) (ps : List Nat)
+    (h : slicePositions s e st n = .ok ps) : ∀ p ∈ ps, p < n := by
+  unfold slicePositions at h
+  simp only [bind, Except.bind, pure, Except.pure] at h
+  cases hsi : sliceIndices s e st n with
+  | error err => simp [hsi] at h
+  | ok t =>
+    obtain ⟨a, b, c⟩ := t
+    simp only [hsi, Except.ok.injEq] at h
+    subst h
+    have := sliceIndices_bounds s e st n a b c hsi
+    exact rangeList_lt a b c n this.1 this.2
+
+theorem nonzero_lt (m : List Bool) : ∀ p ∈ nonzero m, p < m.length := by
+  intro p hp
+  unfold nonzero at hp
+  simp only [List.mem_map, List.mem_filter] at hp
+  obtain ⟨⟨b, q⟩, ⟨hmem, _⟩, rfl⟩ := hp
+  have := List.mem_zipIdx_iff_getElem?.mp hmem
+  simp only at this
+  rcases Nat.lt_or_ge q m.length with h | h
+  · exact h
+  · rw [List.getElem?_eq_none h] at this; cases this
+
+theorem mapM_nil_ok {ε β γ : Type} (f : β → Except ε γ) (out : List γ)
+    (h : ([] : List β).mapM f = .ok out) : out = [] := by
+  simp only [List.mapM_nil, pure, Except.pure, Except.ok.injEq] at h
+  exact h.symm
+
+theorem mapM_cons_ok {ε β γ : Type} (f : β → Except ε γ) (a : β) (l : List β) (out : List γ)
+    (h : (a :: l).mapM f = .ok out) : ∃ b bs, f a = .ok b ∧ l.mapM f = .ok bs ∧ out = b :: bs := by
+  rw [List.mapM_cons] at h
+  simp only [bind, Except.bind, pure, Except.pure] at h
+  cases hfa : f a with
+  | error e => simp [hfa] at h
+  | ok b =>
+    simp only [hfa] at h
+    cases hl : l.mapM f with
+    | error e => simp [hl] at h
+    | ok bs =>
+      simp only [hl, Except.ok.injEq] at h
+      exact ⟨b, bs, rfl, rfl, h.symm⟩
+
+theorem mapM_ok_length {ε β γ : Type} (f : β → Except ε γ) (l : List β) (out : List γ)
+    (h : l.mapM f = .ok out) : out.length = l.length := by
+  induction l generalizing out with
+  | nil => rw [mapM_nil_ok f out h]; rfl
+  | cons a l ih =>
+    obtain ⟨b, bs, _, hl, rfl⟩ := mapM_cons_ok f a l out h
+    simp [ih bs hl]
+
+theorem mapM_ok_forall {ε β γ : Type} (f : β → Except ε γ) (P : γ → Prop)
+    (hf : ∀ a b, f a = .ok b → P b) (l : List β) (out : List γ)
+    (h : l.mapM f = .ok out) : ∀ b ∈ out, P b := by
+  induction l generalizing out with
+  | nil => rw [mapM_nil_ok f out h]; simp
+  | cons a l ih =>
+    obtain ⟨b, bs, hb, hl, rfl⟩ := mapM_cons_ok f a l out h
+    intro x hx
+    rcases List.mem_cons.1 hx with rfl | hx
+    · exact hf a _ hb
+    · exact ih bs hl x hx
+
+theorem resolveRaw_ok (r : RawIx) (n : Nat) (p : PosIx) (h : resolveRaw r n = .ok p) : PixOk [n] [p] := by
+  unfold resolveRaw at h
+  have hnorm : ∀ (i : Int) (q : Nat),
+      ((let j := if i < 0 then i + (n : Int) else i
+        if j < 0 || j ≥ (n : Int) then Except.error Err.index else Except.ok j.toNat) : Except Err Nat) = .ok q → q < n := by
+    intro i q hq
+    simp only at hq
+    by_cases hi : i < 0
+    · simp only [hi, if_true] at hq
+      split at hq
+      · cases hq
+      · cases hq
+        rename_i hc
+        simp at hc
+        omega
+    · simp only [hi, if_false] at hq
+      split at hq
+      · cases hq
+      · cases hq
+        rename_i hc
+        simp at hc
+        omega
+  cases r with
+  | int i =>
+    simp only [bind, Except.bind, pure, Except.pure] at h
+    split at h
+    · cases h
+    · rename_i q hq
+      cases h
+      simp only [PixOk, and_true]
+      exact hnorm i q hq
+  | ints l =>
+    simp only [bind, Except.bind, pure, Except.pure] at h
+    split at h
+    · cases h
+    · rename_i ps hps
+      cases h
+      simp only [PixOk, and_true]
+      exact mapM_ok_forall _ (· < n) hnorm l ps hps
+  | slice s e st =>
+    simp only [bind, Except.bind, pure, Except.pure] at h
+    split at h
+    · cases h
+    · rename_i ps hps
+      cases h
+      simp only [PixOk, and_true]
+      exact slicePositions_lt s e st n ps hps
+  | mask m =>
+    simp only at h
+    split at h
+    · cases h
+      rename_i hm
+      have hm' : m.length = n := by simpa using hm
+      simp only [PixOk, and_true]
+      intro p hp
+      rw [← hm']
+      exact nonzero_lt m p hp
+    · cases h
+
+theorem resolve_all_ok (f : RawIx × Axis → Except Err PosIx)
+    (hf : ∀ r ax, f (r, ax) = resolveRaw r ax.size)
+    (axes : List Axis) (raw : List RawIx) (pix : List PosIx) (hlen : raw.length = axes.length)
+    (h : (raw.zip axes).mapM f = .ok pix) : PixOk (axes.map (·.size)) pix := by
+  induction axes generalizing raw pix with
+  | nil =>
+    cases raw with
+    | nil => rw [mapM_nil_ok f pix h]; trivial
+    | cons _ _ => simp at hlen
+  | cons ax axes ih =>
+    cases raw with
+    | nil => simp at hlen
+    | cons r raw =>
+      simp only [List.zip_cons_cons] at h
+      obtain ⟨p, ps, hp, hps, rfl⟩ := mapM_cons_ok f _ _ pix h
+      rw [hf] at hp
+      have h1 := resolveRaw_ok r ax.size p hp
+      have h2 := ih raw ps (by simpa using hlen) hps
+      simp only [List.map_cons]
+      cases p with
+      | scalar q => simp only [PixOk, and_true] at h1 ⊢; exact ⟨h1, h2⟩
+      | list qs => simp only [PixOk, and_true] at h1 ⊢; exact ⟨h1, h2⟩
+
+theorem expandedIndexer_length (key : List Ix) (ndim : Nat) (r : List Ix)
+    (h : expandedIndexer key ndim = .ok r) : r.length = ndim := by
+  unfold expandedIndexer at h
+  simp only at h
+  split at h
+  · cases h
+  · rename_i hle
+    cases h
+    simp only [List.length_append, List.length_replicate]
+    omega
+
+theorem except_bind_ok {ε β γ : Type} (x : Except ε β) (f : β → Except ε γ) (b : γ)
+    (h : x >>= f = .ok b) : ∃ a, x = .ok a ∧ f a = .ok b := by
+  cases x with
+  | error e => simp [bind, Except.bind] at h
+  | ok a => exact ⟨a, rfl, h⟩
+
+theorem normalizeIndex_length (dims : List String) (ui : UserIndex) (key : List Ix)
+    (h : normalizeIndex dims ui = .ok key) : key.length = dims.length := by
+  unfold normalizeIndex at h
+  simp only [] at h
+  split at h <;>
+  · obtain ⟨k, _, hk⟩ := except_bind_ok _ _ _ h
+    exact expandedIndexer_length _ _ _ hk
+
+theorem getIndices_length (axes : List Axis) (ui : UserIndex) (cfg : IndexCfg) (raw : List RawIx)
+    (h : getIndices axes ui cfg = .ok raw) : raw.length = axes.length := by
+  unfold getIndices at h
+  simp only [bind, Except.bind] at h
+  split at h
+  · cases h
+  · rename_i key hkey
+    have h1 := normalizeIndex_length _ _ _ hkey
+    have h2 := mapM_ok_length _ _ _ h
+    simp only [List.length_zip, List.length_map] at h1 h2
+    omega
+
+
+theorem resolveRaw_full (n : Nat) : resolveRaw (.slice none none none) n = .ok (.list (List.range n)) := by
+  simp [resolveRaw, slicePositions_full, bind, Except.bind, pure, Except.pure]
+
+theorem getAxesOrtho_eq (f : RawIx × Axis → Except Err PosIx)
+    (hf : ∀ r ax, f (r, ax) = resolveRaw r ax.size)
+    (axes : List Axis) (raw : List RawIx) (pix : List PosIx)
+    (hplain : ∀ ax ∈ axes, ax.members = [])
+    (h : (raw.zip axes).mapM f = .ok pix) : getAxesOrtho axes raw pix = axesOrtho axes pix := by
+  induction axes generalizing raw pix with
+  | nil => simp [getAxesOrtho, axesOrtho]
+  | cons ax axes ih =>
+    cases raw with
+    | nil =>
+      rw [mapM_nil_ok f pix (by simpa using h)]
+      simp [getAxesOrtho, axesOrtho]
+    | cons r raw =>
+      simp only [List.zip_cons_cons] at h
+      obtain ⟨p, ps, hp, hps, rfl⟩ := mapM_cons_ok f _ _ pix h
+      rw [hf] at hp
+      have ih' := ih raw ps (fun a ha => hplain a (by simp [ha])) hps
+      unfold getAxesOrtho axesOrtho at ih' ⊢
+      simp only [List.zip_cons_cons, List.filterMap_cons]
+      cases p with
+      | scalar q => simp only []; exact ih'
+      | list qs =>
+        simp only []
+        rw [ih']
+        by_cases hr : r = RawIx.slice none none none
+        · subst hr
+          rw [resolveRaw_full] at hp
+          cases hp
+          have hm := hplain ax (by simp)
+          rw [axis_size_plain ax hm, axisSelect_range ax hm]
+          simp
+        · have : (r == RawIx.slice none none none) = false := by simpa using hr
+          simp only [this, Bool.false_eq_true, if_false]
+
+theorem resolveRaw_ints (li : List Int) (n : Nat) (p : PosIx) (h : resolveRaw (.ints li) n = .ok p) :
+    ∃ ps, p = .list ps ∧ ps.length = li.length := by
+  unfold resolveRaw at h
+  simp only [bind, Except.bind, pure, Except.pure] at h
+  split at h
+  · cases h
+  · rename_i ps hps
+    cases h
+    exact ⟨ps, rfl, mapM_ok_length _ _ _ hps⟩
+
+theorem resolveRaw_mask (m : List Bool) (n : Nat) (p : PosIx) (h : resolveRaw (.mask m) n = .ok p) :
+    p = .list (nonzero m) := by
+  unfold resolveRaw at h
+  simp only at h
+  split at h
+  · cases h; rfl
+  · cases h
+
+theorem resolveRaw_slice (s e st : Option Int) (n : Nat) (p : PosIx) (h : resolveRaw (.slice s e st) n = .ok p) :
+    ∃ ps, slicePositions s e st n = .ok ps ∧ p = .list ps := by
+  unfold resolveRaw at h
+  simp only [bind, Except.bind, pure, Except.pure] at h
+  split at h
+  · cases h
+  · rename_i ps hps
+    cases h
+    exact ⟨ps, hps, rfl⟩
+
+theorem nonzero_nil_of_not_any (m : List Bool) (h : m.any id = false) : nonzero m = [] := by
+  unfold nonzero
+  rw [List.map_eq_nil_iff, List.filter_eq_nil_iff]
+  intro ⟨b, q⟩ hmem
+  have := List.mem_zipIdx_iff_getElem?.mp hmem
+  simp only at this
+  have hb : b ∈ m := List.mem_of_getElem? this
+  simp only [List.any_eq_false, id] at h
+  simpa using h b hb
+
+theorem zero_mem_outerShape_cons (p : PosIx) (ps : List PosIx) (h : 0 ∈ outerShape ps) :
+    0 ∈ outerShape (p :: ps) := by
+  cases p <;> simp [outerShape, h]
+
+theorem anyEmpty_zero_mem (f : RawIx × Axis → Except Err PosIx) (E : RawIx × Axis → Bool)
+    (hf : ∀ r ax, f (r, ax) = resolveRaw r ax.size)
+    (hE1 : ∀ li ax, E (.ints li, ax) = li.isEmpty)
+    (hE2 : ∀ m ax, E (.mask m, ax) = !m.any id)
+    (hE3 : ∀ s e st ax ps, slicePositions s e st ax.size = .ok ps → E (.slice s e st, ax) = ps.isEmpty)
+    (hE4 : ∀ i ax, E (.int i, ax) = false)
+    (l : List (RawIx × Axis)) (pix : List PosIx)
+    (h : l.mapM f = .ok pix) (hany : l.any E = true) : 0 ∈ outerShape pix := by
+  induction l generalizing pix with
+  | nil => simp at hany
+  | cons x l ih =>
+    obtain ⟨r, ax⟩ := x
+    obtain ⟨p, ps, hp, hps, rfl⟩ := mapM_cons_ok f _ _ pix h
+    rw [hf] at hp
+    simp only [List.any_cons, Bool.or_eq_true] at hany
+    rcases hany with hx | hrest
+    · cases r with
+      | int i => rw [hE4] at hx; cases hx
+      | ints li =>
+        rw [hE1] at hx
+        obtain ⟨qs, rfl, hlen⟩ := resolveRaw_ints li _ p hp
+        have : li = [] := by simpa using hx
+        subst this
+        have : qs = [] := List.eq_nil_of_length_eq_zero (by simpa using hlen)
+        subst this
+        simp [outerShape]
+      | mask m =>
+        rw [hE2] at hx
+        have := resolveRaw_mask m _ p hp
+        subst this
+        rw [nonzero_nil_of_not_any m (by simpa using hx)]
+        simp [outerShape]
+      | slice s e st =>
+        obtain ⟨qs, hqs, rfl⟩ := resolveRaw_slice s e st _ p hp
+        rw [hE3 s e st ax qs hqs] at hx
+        have : qs = [] := by simpa using hx
+        subst this
+        simp [outerShape]
+    · exact zero_mem_outerShape_cons p ps (ih ps hps hrest)
+
+theorem putOne_all (f g : RawIx × Axis → Except Err PosIx) (b : Bool)
+    (hf : ∀ r ax, f (r, ax) = resolveRaw r ax.size)
+    (hg1 : ∀ li ax, g (.ints li, ax) =
+      if b = true then pure (PosIx.list (li.map fun _ => 0)) else resolveRaw (.ints li) ax.size)
+    (hg2 : ∀ m ax, g (.mask m, ax) =
+      if b = true then pure (PosIx.list ((nonzero m).map fun _ => 0)) else resolveRaw (.mask m) ax.size)
+    (hg3 : ∀ s e st ax, g (.slice s e st, ax) = resolveRaw (.slice s e st) ax.size)
+    (hg4 : ∀ i ax, g (.int i, ax) = resolveRaw (.int i) ax.size)
+    (l : List (RawIx × Axis)) (pix : List PosIx) (h : l.mapM f = .ok pix) :
+    ∃ pix', l.mapM g = .ok pix' ∧ outerShape pix' = outerShape pix ∧ (b = false → pix' = pix) := by
+  induction l generalizing pix with
+  | nil =>
+    rw [mapM_nil_ok f pix h]
+    exact ⟨[], rfl, rfl, fun _ => rfl⟩
+  | cons x l ih =>
+    obtain ⟨r, ax⟩ := x
+    obtain ⟨p, ps, hp, hps, rfl⟩ := mapM_cons_ok f _ _ pix h
+    rw [hf] at hp
+    obtain ⟨ps', hps', hsh, heq⟩ := ih ps hps
+    have key : ∃ p', g (r, ax) = .ok p' ∧ outerShape (p' :: ps') = outerShape (p :: ps) ∧
+        (b = false → p' = p) := by
+      cases r with
+      | int i => exact ⟨p, by rw [hg4, hp], by cases p <;> simp [outerShape, hsh], fun _ => rfl⟩
+      | slice s e st => exact ⟨p, by rw [hg3, hp], by cases p <;> simp [outerShape, hsh], fun _ => rfl⟩
+      | ints li =>
+        cases b with
+        | false =>
+          exact ⟨p, by rw [hg1, ← hp]; simp, by cases p <;> simp [outerShape, hsh], fun _ => rfl⟩
+        | true =>
+          obtain ⟨qs, rfl, hlen⟩ := resolveRaw_ints li _ p hp
+          exact ⟨PosIx.list (li.map fun _ => 0), by rw [hg1]; rfl, by simp [outerShape, hsh, hlen],
+            fun h => by cases h⟩
+      | mask m =>
+        cases b with
+        | false =>
+          exact ⟨p, by rw [hg2, ← hp]; simp, by cases p <;> simp [outerShape, hsh], fun _ => rfl⟩
+        | true =>
+          have := resolveRaw_mask m _ p hp
+          subst this
+          exact ⟨PosIx.list ((nonzero m).map fun _ => 0), by rw [hg2]; rfl, by simp [outerShape, hsh],
+            fun h => by cases h⟩
+    obtain ⟨p', hp', hsh', heq'⟩ := key
+    refine ⟨p' :: ps', ?_, hsh', ?_⟩
+    · rw [List.mapM_cons, hp', hps']; rfl
+    · intro hb; rw [heq' hb, heq hb]
+
+theorem putOne_all_or (f g : RawIx × Axis → Except Err PosIx) (b : Bool)
+    (hf : ∀ r ax, f (r, ax) = resolveRaw r ax.size)
+    (hg1 : ∀ li ax, g (.ints li, ax) =
+      if b = true then pure (PosIx.list (li.map fun _ => 0)) else resolveRaw (.ints li) ax.size)
+    (hg2 : ∀ m ax, g (.mask m, ax) =
+      if b = true then pure (PosIx.list ((nonzero m).map fun _ => 0)) else resolveRaw (.mask m) ax.size)
+    (hg3 : ∀ s e st ax, g (.slice s e st, ax) = resolveRaw (.slice s e st) ax.size)
+    (hg4 : ∀ i ax, g (.int i, ax) = resolveRaw (.int i) ax.size)
+    (l : List (RawIx × Axis)) (pix : List PosIx) (h : l.mapM f = .ok pix)
+    (Q : Prop) (hQ : b = true → Q) :
+    ∃ pix', l.mapM g = .ok pix' ∧ outerShape pix' = outerShape pix ∧ (pix' = pix ∨ Q) := by
+  obtain ⟨pix', h1, h2, h3⟩ := putOne_all f g b hf hg1 hg2 hg3 hg4 l pix h
+  refine ⟨pix', h1, h2, ?_⟩
+  cases b with
+  | false => exact Or.inl (h3 rfl)
+  | true => exact Or.inr (hQ rfl)
+
+theorem putIndices_of_resolve (f : RawIx × Axis → Except Err PosIx)
+    (hf : ∀ r ax, f (r, ax) = resolveRaw r ax.size)
+    (axes : List Axis) (raw : List RawIx) (pix : List PosIx)
+    (h : (raw.zip axes).mapM f = .ok pix) :
+    ∃ pix', putIndices axes raw = .ok pix' ∧ outerShape pix' = outerShape pix ∧
+      (pix' = pix ∨ 0 ∈ outerShape pix) := by
+  unfold putIndices
+  simp only []
+  generalize hb : List.any (raw.zip axes) _ = b
+  refine putOne_all_or f _ b hf ?_ ?_ ?_ ?_ _ pix h _ ?_
+  · intro _ _; rfl
+  · intro _ _; rfl
+  · intro _ _ _ _; rfl
+  · intro _ _; rfl
+  · intro hbt
+    rw [hbt] at hb
+    refine anyEmpty_zero_mem f _ hf ?_ ?_ ?_ ?_ _ pix h hb
+    · intro _ _; rfl
+    · intro _ _; rfl
+    · intro s e st ax ps hps
+      simp only [hps]
+    · intro _ _; rfl
+
+theorem selCoord_none_of_zero (pix : List PosIx) (j : List Nat) (h : 0 ∈ outerShape pix) :
+    selCoord pix j = none := by
+  induction pix generalizing j with
+  | nil => simp [outerShape] at h
+  | cons p pix ih =>
+    cases j with
+    | nil => cases p <;> rfl
+    | cons k j =>
+      cases p with
+      | scalar p =>
+        simp only [outerShape] at h
+        simp only [selCoord, ih j h, ite_self]
+      | list ps =>
+        simp only [outerShape, List.mem_cons] at h
+        simp only [selCoord]
+        rcases h with h | h
+        · have : ps = [] := List.eq_nil_of_length_eq_zero h.symm
+          subst this
+          have : lastSel [] k = none := rfl
+          rw [this]
+        · rw [ih j h]
+          cases lastSel ps k <;> rfl
+
+
+theorem pixOk_of_forall (shape : List Nat) (pix : List PosIx) (hpl : pix.length = shape.length)
+    (hin : ∀ k (hk : k < pix.length), PixOk [shape.getD k 0] [pix[k]]) : PixOk shape pix := by
+  induction pix generalizing shape with
+  | nil =>
+    cases shape with
+    | nil => trivial
+    | cons _ _ => simp at hpl
+  | cons p pix ih =>
+    cases shape with
+    | nil => simp at hpl
+    | cons n s =>
+      have h0 := hin 0 (by simp)
+      have ht : PixOk s pix := by
+        apply ih s (by simpa using hpl)
+        intro k hk
+        have := hin (k + 1) (by simpa using hk)
+        simpa using this
+      simp only [List.getD_cons_zero, List.getElem_cons_zero] at h0
+      cases p with
+      | scalar q => simp only [PixOk, and_true] at h0 ⊢; exact ⟨h0, ht⟩
+      | list qs => simp only [PixOk, and_true] at h0 ⊢; exact ⟨h0, ht⟩
 
 end DimModel
